@@ -222,6 +222,25 @@ def t3(facts, tier):
     rf = reader_fns(facts)
     anc = anchors(facts, rf)
     from ..flow import parent_map
+    # helpers that are only reached when the stream decides so (the Err arm of a read, a branch on a value read): a construct inside
+    # them that looks data-independent locally is still triggered by the input
+    by_id = {g["id"]: g for g in rf}
+    ctx_dep = set()
+    for _round in range(3):
+        for g in rf:
+            gtv = gpm = None
+            for y in walk(g["body"]):
+                if y.get("k") != "Call":
+                    continue
+                t = (y.get("res") or {}).get("fn") or y.get("fn")
+                h = by_id.get(t)
+                if h is None or h["id"] in ctx_dep or h is g or (h.get("impl") or {}).get("trait") or h.get("pub"):
+                    continue
+                if gtv is None:
+                    gtv = tainted_vars(g)
+                    gpm = parent_map(g["body"])
+                if control_dependent_only(g, y, gtv, gpm) or g["id"] in ctx_dep:
+                    ctx_dep.add(h["id"])
     for f in rf:
         tv = None
         pm = None
@@ -233,7 +252,7 @@ def t3(facts, tier):
                 if tv is None:
                     tv = tainted_vars(f)
                     pm = parent_map(f["body"])
-                if not data_dependent(f, x, tv, pm):
+                if not data_dependent(f, x, tv, pm) and f["id"] not in ctx_dep:
                     independent.append((f, x, k))
                     continue
                 if k == "rangeindex" and range_index_proved(f, x):
@@ -735,6 +754,32 @@ def data_dependent(f, site, tv, pm):
             return True
         child = p
         p = pm.get(id(p))
+    return False
+
+
+def control_dependent_only(f, site, tv, pm):
+    """is the call site reached only when a condition on stream data (or the outcome of a read) says so? (loops over a count do not
+    qualify: a helper called once per element is reached for well-formed input too)"""
+    def mentions(n):
+        for x in walk(n):
+            if x.get("k") == "Var" and x["v"] in tv:
+                return True
+            if x.get("k") == "Call":
+                c = callee(x) or ""
+                if c.startswith("savefile::Deserializer::read_") or x.get("trait") in ("byteorder::io::ReadBytesExt",) \
+                        or c == "savefile::Deserialize::deserialize":
+                    return True
+        return False
+    p, child = pm.get(id(site)), site
+    while p is not None:
+        k = p.get("k")
+        if k == "If" and child is not p["c"] and mentions(p["c"]):
+            return True
+        if k == "Match" and child is not p["e"] and mentions(p["e"]):
+            return True
+        if k == "LetS" and p.get("else") is child and p.get("init") is not None and mentions(p["init"]):
+            return True
+        child, p = p, pm.get(id(p))
     return False
 
 
